@@ -1,12 +1,12 @@
 SPECIFICATION Spec
 CONSTANTS
-  Trans = {1, 2, 3}
+  Trans = {1, 2}
   Keys = {1, 2}
-  MaxOps = 1
+  MaxOps = 2
   NoDupRead = FALSE
   LoseMinKey = FALSE
-  EarlyClean = TRUE
-  WithAborts = FALSE
-INVARIANTS Serializable OutcomeTruthful RetainsOverlapping
+  EarlyClean = FALSE
+  WithAborts = TRUE
+INVARIANTS Serializable OutcomeTruthful RetainsOverlapping NoAbortedWrites
 PROPERTIES SnapshotStable AtomicCommit
 CHECK_DEADLOCK FALSE
